@@ -18,13 +18,13 @@ import vf, _routetable as R
 
 
 def run(ctx):
-    cfgs = ["cidr-mt", "dom-mt", "fwd-mt", "agt-mt", "cidr-loc", "dom-loc", "fwd-loc"] if ctx.quick() else \
+    cfgs = ["cidr-mt", "dom-mt", "fwd-mt", "agt-mt", "cidr-loc", "fwd-loc"] if ctx.quick() else \
            ["cidr-mtT", "dom-mtT", "fwd-mtT", "agt-mtT", "agt-lk", "cidr-loc", "cidr-locT", "dom-loc", "fwd-loc"]
     results, caught = R.model_and_sensitivity(ctx, "C10", cfgs)
     summ, mism, lkmism, tot = R.replay(ctx, results)
     foreign = R.report_replay(ctx, "C10", mism, lkmism)
-    ntr, nops = (60, 250) if ctx.quick() else (600, 1000)
-    tsum, v = R.traces(ctx, "C10", ["cidr", "dom", "fwd", "agt"], ntr, nops, "c10trace")
+    ntr, nops, chunks = (60, 250) + (1,) if ctx.quick() else (20, 1000) + (8,)
+    tsum, v = R.traces(ctx, "C10", ["cidr", "dom", "fwd", "agt"], ntr, nops, "c10trace", chunks)
     foreign += R.report_trace(ctx, "C10", v)
     ctx.evidence("model_checking",
                  assumptions=["one operation at a time (every table operation is one critical section under the table's "
@@ -35,11 +35,11 @@ def run(ctx):
                               "local agent / absent, <= 2 entries; traces: all four tables in one manager, 7 origins, "
                               "3 next hops, sequences 0..4 (offset near 2^64 in half of the traces)"],
                  states=sum(r.distinct for r in results.values()), transitions=tot["edges"],
-                 traces_validated_against_impl=sum(s["walks"] for s in summ.values()) + (tsum["traces"] if v["accepted"] else 0),
+                 traces_validated_against_impl=sum(s["walks"] for s in summ.values()) + tsum["validated_traces"],
                  exhaustive=True, cfgs={n: {"states": r.distinct, "transitions": r.generated - 1} for n, r in results.items()},
                  replay={n: {k: s[k] for k in ("groups", "uncovered", "edges", "edges_exhibited", "steps", "walks",
                                                 "mismatches", "lkmismatches", "lookups")} for n, s in summ.items()},
                  nondeterministic_pairs=tot["nondet_groups"],
-                 trace_events=tsum["events"], trace_highwater=v["hw"], trace_event_counts=tsum["counts"],
+                 trace_events=tsum["events"], trace_events_matched=tsum["highwater_total"], trace_event_counts=tsum["counts"],
                  deviations_caught=caught, findings_of_sibling_properties_seen=foreign,
                  samples=[{"replay_walk": summ[cfgs[0]]["sample"]}, {"trace_events": tsum["sample"]}])
